@@ -90,12 +90,16 @@ def spec():
             _p("colors", "query", False, {"type": "array", "items": {"$ref": "#/components/schemas/Color"}}), _p("level", "query", False, {"$ref": "#/components/schemas/Level"}),
             _p("X-Color", "header", False, {"$ref": "#/components/schemas/Color"}), _p("sid", "cookie", False, {"$ref": "#/components/schemas/Color"})],
             "responses": {"200": ok}}},
+        # an object-valued query parameter (declared through `content: application/json`)
+        "/find": {"get": {"operationId": "findIt", "parameters": [{"name": "flt", "in": "query", "content": {"application/json": {"schema": {"$ref": "#/components/schemas/Filter"}}}}],
+                          "responses": {"200": ok}}},
         # header parameters that are not strings: httpx accepts only text as a header value
         "/tune": {"get": {"operationId": "tuneIt", "parameters": [
             _p("X-Depth", "header", False, {"type": "integer"}), _p("X-Flag", "header", False, {"type": "boolean"}),
             _p("X-Ids", "header", False, {"type": "array", "items": {"type": "integer"}}), _p("X-Name", "header", False), _p("k", "query", False, {"type": "integer"})],
             "responses": {"200": ok}}},
-    }, schemas={"Item": ITEM, "Color": {"type": "string", "enum": ["red", "dark-blue"]}, "Level": {"type": "integer", "enum": [1, 2]}})
+    }, schemas={"Item": ITEM, "Color": {"type": "string", "enum": ["red", "dark-blue"]}, "Level": {"type": "integer", "enum": [1, 2]},
+                "Filter": {"type": "object", "properties": {"k": {"type": "string"}}}})
 
 
 # The harness's own statement of each operation (python argument name, spec name, location, required, kind) — written from
@@ -594,6 +598,55 @@ class TypedHeaders(Obligation):
         return "tune_it(%r): %s" % (inp["args"], self.verdict(inp, r)[1])
 
 
+class ObjectParam(Obligation):
+    """An object-valued query parameter has to reach httpx as TEXT (its JSON rendering): httpx renders anything else with
+    str(), i.e. as a Python repr."""
+
+    functions = ["pyopenapi_gen.visit.endpoint.generators.url_args_generator:EndpointUrlArgsGenerator.generate_url_and_args", "pyopenapi_gen.core.utils:DataclassSerializer.serialize"]
+    alphabet = VAL
+
+    def __init__(self, slen):
+        self.slen = slen
+        self.name = "object_param/strlen=%d" % slen
+        self.bounds = {"operation": "find_it: query parameter `flt` declared with content application/json, schema {k: string}", "string_length": slen}
+
+    def make_inputs(self, e):
+        return {"k": mk_sym_str(self.slen, "k", VAL)}
+
+    def _run(self, inst, inp):
+        ep, models = pkgs(inst)
+        rec = Rec(200)
+        c = ep.DefaultClient(rec, "http://h")
+        cls = [v for n, v in vars(models).items() if n.startswith("Filter")][0]
+        drive(c.find_it(flt=cls(k=inp["k"])))
+        return [(m, u, dict(k)) for m, u, k in rec.calls]
+
+    def run_sym(self, inp):
+        return call_catching(self._run, True, inp)
+
+    def run_real(self, inp):
+        return call_catching(self._run, False, inp)
+
+    def normalise(self, r):
+        return [(m, u, {k: _plain(v, k) for k, v in kw.items()}) for m, u, kw in r] if isinstance(r, list) else r
+
+    def prop(self, inp, r):
+        if isinstance(r, Raised) or len(r) != 1:
+            return False
+        v = (r[0][2].get("params") or {}).get("flt")
+        return isinstance(v, (str, SymStr))
+
+    def known(self, inp, r):
+        return None if self.prop(inp, r) else "object-query-parameter-sent-as-python-repr"
+
+    def describe_violation(self, inp, r):
+        return "find_it(flt=Filter(k=%r)): params handed to httpx %r - the object is not rendered as text" % (inp["k"], self.normalise(r))
+
+
+def mk_object_param(slen):
+    return ObjectParam(slen)
+
+
 def mk_typed_headers(slen):
     return TypedHeaders(slen)
 
@@ -907,6 +960,7 @@ def specs(tier):
     # below the generated method: the bundled transport hands params / cookies / json / data to httpx unchanged, and a
     # second request on the same transport carries nothing of the first (obligations of props/c17.py without auth plugins)
     out.append((MOD, "mk_typed_headers", (1,)))
+    out.append((MOD, "mk_object_param", (1,)))
     out.append(("props.c17", "mk", (0, "passthrough")))
     out.append(("props.c17", "mk", (0, "history")))
     for n in (range(0, 4) if tier == "quick" else range(0, 6)):
@@ -950,6 +1004,9 @@ def replay(path):
         parts = name.split("/")
         opname = "/".join(parts[1:-1])
         ob = RequestOb(opname, int(parts[-1].split("=")[1]))
+    elif name.startswith("object_param/"):
+        prepare()
+        ob = ObjectParam(int(name.split("=")[1]))
     elif name.startswith("typed_headers/"):
         prepare()
         ob = TypedHeaders(int(name.split("=")[1]))
